@@ -9,7 +9,8 @@ sent during the request (`reviewed`). The judge says where the answer may have c
 
 * no cluster, or no ready endpoint: the fixed error (not authenticated / `decisionOnError`), nothing was asked;
 * a review was sent: the answer is what the request's OWN cluster says now (an error of the cluster is an error);
-* no review was sent: an error that is not an upstream error, or what the request's OWN cluster said for the same
+* no review was sent: an error that is not an upstream error (e.g. `moved`: the host changed hands while the request
+  was processed), or what the request's OWN cluster said for the same
   token / spec at some earlier time that is still within the TTL of that answer.
 
 No other cluster's oracle occurs in the judge: an answer that only another cluster gave is rejected.
@@ -64,7 +65,7 @@ def SarJudge (env : Env) (o : SarObs) : Prop :=
   | some c =>
     if o.ownReady = false then o.res = sarErr .noReady ∧ o.reviewed = false
     else if o.reviewed then o.res = (env.sarO c (specOf o.attrs) o.time).res
-    else ∃ t', sarCachedAt env c o t'
+    else o.res = sarErr .moved ∨ ∃ t', sarCachedAt env c o t'
 
 /-- the cluster of `host` has a ready endpoint -/
 def ownReady (s : State) (host : Str) : Bool :=
@@ -99,7 +100,7 @@ def sarJudge (env : Env) (cands : List Time) (o : SarObs) : Bool :=
   | some c =>
     if o.ownReady = false then decide (o.res = sarErr .noReady) && !o.reviewed
     else if o.reviewed then decide (o.res = (env.sarO c (specOf o.attrs) o.time).res)
-    else cands.any (sarCachedAtB env c o)
+    else decide (o.res = sarErr .moved) || cands.any (sarCachedAtB env c o)
 
 theorem tokCachedAtB_sound (env : Env) (c : Inst) (o : TokObs) (t' : Time)
     (h : tokCachedAtB env c o t' = true) : tokCachedAt env c o t' := by
@@ -164,8 +165,12 @@ theorem sarJudge_sound (env : Env) (cands : List Time) (o : SarObs) (h : sarJudg
       · simpa using h
       · simp at h
       · simp only [Bool.true_eq_false, if_false, Bool.false_eq_true] at h ⊢
-        obtain ⟨t', _, ht⟩ := List.any_eq_true.1 h
-        exact ⟨t', sarCachedAtB_sound env c o t' ht⟩
+        rw [Bool.or_eq_true] at h
+        cases h with
+        | inl h => exact Or.inl (by simpa using h)
+        | inr h =>
+          obtain ⟨t', _, ht⟩ := List.any_eq_true.1 h
+          exact Or.inr ⟨t', sarCachedAtB_sound env c o t' ht⟩
       · simpa using h
 
 end KG.Spec.AuthCache
